@@ -423,9 +423,18 @@ def run(ctx):
     from jedi import settings
     auto = list(settings.auto_import_modules)
     rng = ctx.subrng('projects')
-    n_proj = ctx.size(10, 120)
+    n_proj = ctx.size(9, 120)
     cases = [{'id': 'p%d' % i, 'seed': '%s-%d' % (ctx.seed, i), 'n_queries': ctx.size(28, 120)}
              for i in range(n_proj)]
+    # corpus first: past findings, regenerated from their seeds
+    cdir = os.path.join(common.CORPUS_DIR, 'C12')
+    if os.path.isdir(cdir):
+        for fn in sorted(os.listdir(cdir)):
+            if fn.endswith('.json'):
+                with open(os.path.join(cdir, fn)) as f:
+                    c = json.load(f)
+                cases.insert(0, {'id': 'corpus-' + fn[:-5], 'seed': c['seed'], 'n_queries': ctx.size(20, 60),
+                                 'env_lists_project': bool(c.get('env_lists_project'))})
     # the environment itself lists the project (PYTHONPATH): the documented exception of the funnel theorem
     cases.append({'id': 'envlists', 'seed': '%s-envlists' % ctx.seed, 'n_queries': ctx.size(20, 60),
                   'env_lists_project': True})
